@@ -209,7 +209,7 @@ func typeBody(d *Decl) string {
 	case "struct":
 		s := "struct {\n\tID int\n\tName string\n"
 		for _, f := range d.Fields {
-			s += "\t" + f + "\n"
+			s += "\t" + strings.TrimPrefix(f, "\t") + "\n"
 		}
 		return s + "}"
 	case "scalar":
